@@ -19,3 +19,10 @@ package printer
 //@   trusted
 //@   requires p != nil
 //@   modifies p.padding
+//
+// quotable(s): the text can be written between double quotes and read back by knut's parser (no double
+// quote, no line break: the syntax has no escape sequences). The transaction printer writes the
+// description as "%s" without any check; journals that come from the parser satisfy this by construction,
+// texts that come from bank statements need not (property C13).
+//@ spec quotable(s string) bool
+
